@@ -4,9 +4,9 @@ from runner import Stream
 from props import _text as T
 
 ID = "C12"
-IMPORTS = ["CaresProps.C12", "CaresProps.C12b"]
+IMPORTS = ["CaresProps.C12", "CaresProps.C12b", "CaresProps.C12c", "CaresProps.C12cRun"]
 # only this slice's modules: other builders' files may be mid-edit in the shared lake project
-LEAN_TARGETS = ["CaresProps.C12", "CaresProps.C12b", "driver_text", "driver_sim"]
+LEAN_TARGETS = ["CaresProps.C12", "CaresProps.C12b", "CaresProps.C12c", "CaresProps.C12cRun", "driver_text", "driver_sim"]
 THEOREMS = [
     "Cares.C12.candidates_order",
     "Cares.C12.only_name_when_not_eligible",
@@ -19,7 +19,7 @@ THEOREMS = [
     "Cares.C12.anyNodata_iff",
     "Cares.C12.pinned_final_status_f21",
 ]
-THEOREMS = THEOREMS + vlib.discover_theorems("CaresProps/C12b.lean")
+THEOREMS = THEOREMS + vlib.discover_theorems("CaresProps/C12b.lean") + vlib.discover_theorems("CaresProps/C12c.lean")
 TRUSTED = [
     "Lean 4.33.0 kernel; axioms allowed: propext, Classical.choice, Quot.sound",
     "hand-written Lean model of ares_search_name_list / ares_cat_domain / ares_lookup_hostaliases and of the fold performed by "
